@@ -351,7 +351,7 @@ Definition cstep (order : nat) (s : st) (me : tid) : sres :=
       match find p t, find c t with
       | Some (INode pi cs), Some child =>
         '(sep, _) <- get_nth index cs ;;
-        sep' <- (if index =? 0 then sm <- ismallest child ;; Ok (if ltb key sm then key else sep) else Ok sep) ;;
+        sep' <- Ok (if index =? 0 then (if ltb key sep then key else sep) else sep) ;;
         match isplit order fr child with
         | None =>
           t' <- upd p (fun _ => Ok (INode pi (set_nth index (sep', child) cs))) t ;;
